@@ -100,31 +100,31 @@ def generate(ctx, rng):
     for i in range(0, len(subsets), 64):
         yield ("getprops", i), {"kind": "getprops", "subsets": [list(s) for s in subsets[i:i + 64]], "container": ["set", "list", "tuple", "frozenset"][(i // 64) % 4]}
     yield ("setprops-single",), {"kind": "setprops-single"}
-    for j in range(40 if quick else 7500):
+    for j in range(40 if quick else 22500):
         k = rng.randint(1, len(SUPPORTED))
         ids = rng.sample(range(len(SUPPORTED)), k)
         yield ("setprops-multi", j), {"kind": "setprops-multi", "items": [(i, rng.randrange(len(VALUE_DOMAINS[SUPPORTED[i]]))) for i in ids]}
     # set state over the C10 generator
     states = [st for _, st in gen.per_field_sweeps(rng)] + gen.pairwise(rng, gen.PAIRWISE_DOMAINS)
-    states += [gen.random_state(rng) for _ in range(3000 if quick else 300000)]
+    states += [gen.random_state(rng) for _ in range(3000 if quick else 900000)]
     for i in range(0, len(states), 100):
         yield ("setstate", i), {"kind": "setstate", "states": states[i:i + 100]}
     # long mixed sequence (several wrap-arounds)
-    n_long = 5000 if quick else 400000
+    n_long = 5000 if quick else 1200000
     for i in range(0, n_long, 500):
         yield ("long", i), {"kind": "long", "n": 500, "lseed": rng.getrandbits(32)}
     # device-side: public operations with capability profiles
-    for j in range(80 if quick else 6000):
+    for j in range(80 if quick else 18000):
         yield ("ops", j), {"kind": "ops", "oseed": rng.getrandbits(32), "debug_logging": j % 2 == 1}
     # the same against devices that use the additive body check and whose replies are sometimes junk, corrupted, an error packet or missing
-    for j in range(120 if quick else 12500):
+    for j in range(120 if quick else 37500):
         yield ("ops-faulty", j), {"kind": "ops", "oseed": rng.getrandbits(32), "debug_logging": j % 5 == 1, "faulty": True,
                                   "check": ["sum", "crc"][j % 2]}
     # two client objects working against two devices at the same time
-    for j in range(60 if quick else 7500):
+    for j in range(60 if quick else 22500):
         yield ("ops-pair", j), {"kind": "ops-pair", "oseed": rng.getrandbits(32)}
     # commands constructed first and serialised later, in another order, with other commands constructed in between
-    for j in range(60 if quick else 15000):
+    for j in range(60 if quick else 45000):
         yield ("deferred", j), {"kind": "deferred", "lseed": rng.getrandbits(32), "n": rng.randint(2, 9)}
 
 
@@ -421,6 +421,8 @@ def _ops(ctx, case):
             return [(0, packets[0]), (0, packets[0])]                                     # duplicated reply
         dev.on_exchange = on_exchange
 
+    reads = {"n": 0}
+
     async def go(loop):
         ac = AC(ip=dev.host, port=dev.port, device_id=dev.device_id)
         if dev.version == 3:
@@ -458,6 +460,14 @@ def _ops(ctx, case):
                     await ac.apply()
             except Exception as e:  # noqa: BLE001
                 errs.append((op, e))
+            # what applications do between operations: look at the object (status page, logging, diagnostics dump)
+            if r.random() < 0.4:
+                try:
+                    str(ac), repr(ac), ac.to_dict()
+                    [getattr(ac, n2) for n2 in dir(type(ac)) if isinstance(getattr(type(ac), n2, None), property)]
+                    reads["n"] += 1
+                except Exception as e:  # noqa: BLE001
+                    errs.append(("read-attributes", e))
 
     if case.get("debug_logging"):
         with H.debug_logging():
